@@ -124,7 +124,7 @@ def compare_models(rng, nv, A, B, heavy=False):
     """None when no assignment separates the two constraint lists, else (assignment, holdsA, holdsB); second value: how
     the comparison was made"""
     size = sum(len(t) + 1 for t, _, _ in A) + sum(len(t) + 1 for t, _, _ in B)
-    if nv <= 16 and (1 << nv) * max(size, 1) <= 6000000:
+    if nv <= 16 and (1 << nv) * max(size, 1) <= (6000000 if heavy else 300000):
         for m in range(1 << nv):
             a = [None] + [bool(m >> i & 1) for i in range(nv)]
             x, y = holds(a, A), holds(a, B)
@@ -133,7 +133,7 @@ def compare_models(rng, nv, A, B, heavy=False):
         return None, 'all assignments'
     # beyond enumeration: local search for models of either list (the walk stops as soon as the list is satisfied, so the
     # models it finds satisfy it barely), each judged by the other list; plus uniformly random assignments
-    budget = [4000000 if heavy else 400000]
+    budget = [4000000 if heavy else 150000]
 
     def value(a, c):
         s_ = 0
@@ -150,6 +150,8 @@ def compare_models(rng, nv, A, B, heavy=False):
         a = [None] + [rng.random() < 0.5 for _ in range(nv)]
         for _ in range(4 * nv + 20):
             budget[0] -= size
+            if budget[0] <= 0:
+                return None
             bad = [c for c in X if not ok1(a, c)]
             if not bad:
                 return a
